@@ -20,6 +20,7 @@ RULE = (
     "soup: every token sequence up to length L over a 32-token adversarial alphabet x 16 small formats x strict/lenient "
     "(exhaustive for L<=3 quick, L<=4 thorough; lengths 5-6 seeded samples in thorough); mutations: valid lines from the "
     "C01 generator with exactly one planted fault (unknown long/short option, value given to a flag, required value "
+    "Also: every third soup line is parsed in both modes, in both orders, on ONE parser and ONE raw-args object and compared with fresh parsers; one-letter names behind two dashes count as unknown options. "
     "stripped, last required argument dropped, surplus positional, ill-typed value). Every fifth faulty line is also parsed through Command.parse(raw, mode) of a real application's command, mode in {None, False, True} x leniency configured {nowhere, on the command, on the application, on the application but switched off on the command, switched on / off after the command object was built}: the outcome must equal the parser's in the mode that is explicit if given, else the one the command's configuration reports. non-trivial = sequence with >=1 "
     "option-like token / any mutation; distinct by (format id, token tuple) / (format shape, fault kind, spelling pattern)."
 )
